@@ -97,6 +97,47 @@ def run_verus_units(units, names, obligations, assumptions, meta):
 
 
 # ------------------------------------------------------------------- Kani
+OVERFLOW_RE = re.compile(r"attempt to .* with overflow|attempt to shift|attempt to negate|arithmetic overflow|attempt to divide|attempt to calculate the remainder")
+
+
+def profile_dependent(c, overlay):
+    """A failed check that exists only with debug assertions / overflow checks on."""
+    if OVERFLOW_RE.search(c.get("desc", "")):
+        return "overflow check (debug builds only): " + c.get("desc", "")
+    if c.get("file") and c.get("line"):
+        try:
+            ln = open(os.path.join(overlay, c["file"])).read().split("\n")[c["line"] - 1].strip()
+        except (OSError, IndexError):
+            ln = ""
+        if ln.startswith("debug_assert"):
+            return "debug_assert (debug builds only): " + ln
+    return None
+
+
+def panic_obligation(name, h, scope, overlay):
+    """C17 obligation: the call never returns and panics through a profile-independent check."""
+    if h.status not in ("ok", "failed"):
+        return Obligation("K:" + name, "kani", name, "undecided", {"reason": "harness %s (%s)" % (h.status, h.text[-300:].replace("\n", " | "))}, h.time_s, scope)
+    if h.covers_total != 1:
+        return Obligation("K:" + name, "kani", name, "undecided", {"reason": "expected exactly one `returned` cover, found %d" % h.covers_total}, h.time_s, scope)
+    unw = [c for c in h.failed_checks if c.get("desc", "").startswith("unwinding assertion")]
+    if unw:
+        return Obligation("K:" + name, "kani", name, "undecided", {"reason": "unwinding bound of the harness exceeded"}, h.time_s, scope)
+    if h.covers_sat > 0:
+        return Obligation("K:" + name, "kani", name, "failed",
+                          {"failed_checks": [{"desc": "the call RETURNS for some invalid argument (cover `returned` is satisfiable)", "file": "", "line": 0, "fn": ""}] + h.failed_checks[:6],
+                           "full": h.full, "panic_kind": "returns"}, h.time_s, scope)
+    if not h.failed_checks:
+        return Obligation("K:" + name, "kani", name, "undecided", {"reason": "no execution returns but no failing check was reported"}, h.time_s, scope)
+    dep = [(c, profile_dependent(c, overlay)) for c in h.failed_checks]
+    bad = [(c, why) for c, why in dep if why]
+    if bad:
+        return Obligation("K:" + name, "kani", name, "failed",
+                          {"failed_checks": [dict(c, desc="panic depends on the build profile: " + why) for c, why in bad] , "full": h.full, "panic_kind": "profile"},
+                          h.time_s, scope)
+    return Obligation("K:" + name, "kani", name, "ok", {"checks": h.checks_total, "panics_at": ["%s:%s %s" % (c["file"], c["line"], c["desc"]) for c in h.failed_checks[:3]]}, h.time_s, scope)
+
+
 def run_kani_set(pl, tier, obligations, assumptions, meta, filters=None, tag="k"):
     files = [os.path.join(common.CONTRACTS, "kani", f) for f in pl.get("kani_units", [])]
     if not files:
@@ -138,6 +179,9 @@ def run_kani_set(pl, tier, obligations, assumptions, meta, filters=None, tag="k"
                 break
         if h is None:
             obligations.append(Obligation("K:" + name, "kani", name, "undecided", {"reason": "harness did not run"}, 0, scope))
+            continue
+        if pl.get("panic_re") and re.search(pl["panic_re"], name):
+            obligations.append(panic_obligation(name, h, scope, ov))
             continue
         if h.status == "ok":
             if h.covers_total > 0 and h.covers_sat < h.covers_total:
@@ -229,7 +273,7 @@ def check(pid, tier, record_baseline=False):
             continue
         if ob.backend == "kani":
             n_cex = len([v for v in violations if v[0].backend == "kani"])
-            rep = kbackend.counterexample(kov[0], ob.detail.get("full") or ob.what, features=pl.get("kani_features")) if (kov[0] and n_cex < 2) else {"harness": ob.detail.get("full") or ob.what, "note": "counterexample extraction limited to the first two failed harnesses"}
+            rep = kbackend.counterexample(kov[0], ob.detail.get("full") or ob.what, features=pl.get("kani_features"), returns=(ob.detail.get("panic_kind") == "returns")) if (kov[0] and n_cex < 2) else {"harness": ob.detail.get("full") or ob.what, "note": "counterexample extraction limited to the first two failed harnesses"}
             witness = json.dumps(rep.get("values", ""))
             k = known_match(known, pid, ob, witness)
             if k:
